@@ -310,10 +310,11 @@ def r05_2_noop_predicates_agree(ctx: Ctx, rule: str = "R05.2") -> None:
             continue
 
         def first_cond(f, pred):
+            from ..facts import path_facts
+
             for p in ctx.paths(f):
                 if p.outcome == "return" and pred(p):
-                    cs = [(src(s.node), s.value) for s in p.steps if s.kind == "cond"]
-                    return cs
+                    return sorted(str(x) for x in path_facts(p))
             return None
 
         tb = [q for q in b.params if q != "self"][0]
@@ -323,8 +324,8 @@ def r05_2_noop_predicates_agree(ctx: Ctx, rule: str = "R05.2") -> None:
         if cb is None or cf is None:
             run.fail(rule, f"{cname}:noop-pair", f"{cname} no longer short-cuts its do-nothing case in both _begin_apply and _finish_apply", fi=b)
             continue
-        norm_b = [(t.replace(tb, "T"), v) for t, v in cb]
-        norm_f = [(t.replace(tf, "T"), v) for t, v in cf]
+        norm_b = [t.replace(f"{tb}.", "T.") for t in cb]
+        norm_f = [t.replace(f"{tf}.", "T.") for t in cf]
         if norm_b == norm_f:
             run.ok(rule, f"{cname}:noop-pair", {"condition": norm_b})
         else:
